@@ -53,7 +53,7 @@ def run(ctx):
         if not ctx.anchor(R2, EVAL + fn, b is not None):
             continue
         ctx.functions_analysed.add(b.name)
-        ins = [c for c in b.calls if re.search(r'HashSet::<.*>::insert$', c.name or '')]
+        ins = [c for c in b.calls if re.search(r'(Hash|BTree)Set::<.*>::insert$', c.name or '')]
         for c in ins:
             n += 1
             tests = [x.bb for x in b.calls if (x.fn or '').endswith('DataValue::is_null')]
